@@ -576,6 +576,11 @@ def run(ctx):
     ctx.attempt(degenerate_projector_rule, ctx)
     ctx.attempt(degenerate_derivative_rule, ctx)
     ctx.attempt(inverse_trig_domain_rule, ctx)
+    ctx.attempt(plane_degenerate_rule, ctx)
+    ctx.attempt(sqrt_domain_rule, ctx)
+    from ..shared import per_group_state_rule as _per_group_state_rule
+
+    ctx.attempt(_per_group_state_rule, ctx, "R17.18", lambda f: f.qualname.startswith("EasyFEA.Simulations."), 5)
     projector_rule(ctx)
     mask_rule(ctx)
     history_rule(ctx)
@@ -931,3 +936,188 @@ def inverse_trig_domain_rule(ctx):
                 r.ok(f"{f.qualname}: {norm_text(n)[:50]} argument clipped")
             else:
                 r.fail(f.qualname, f"unclipped:{norm_text(n)[:40]}", f.file, n.lineno, f"{(f.cls.name + '.') if f.cls else ''}{f.name}", f"`{norm_text(n)[:60]}`: the argument is a computed ratio that equals +-1 at repeated eigenvalues and is not clipped to [-1, 1] before the call: round-off gives NaN for uniaxial and other degenerate states")
+
+
+def _plane_setup(repo):
+    from ..alg import MQ
+
+    R2 = [[Q(3, 5), Q(-4, 5)], [Q(4, 5), Q(3, 5)]]
+    I2 = [[Q(1), Q(0)], [Q(0), Q(1)]]
+    s2 = MQ.sqrt(2)
+
+    def tensor(d, rot):
+        R = R2 if rot else I2
+        return [[sum((R[i][k] * d[k] * R[j][k] for k in range(2)), Q(0)) for j in range(2)] for i in range(2)]
+
+    def kelvin(T):
+        return [MQ.of(T[0][0]), MQ.of(T[1][1]), MQ.of(T[0][1]) * s2]
+
+    return R2, I2, s2, tensor, kelvin
+
+
+def plane_degenerate_rule(ctx):
+    """R17.15 / R17.16: the 2-D closed-form decomposition (eigenvalues from trace and determinant, M1 = (T - v2 I) / (v1 - v2))
+    on exact states with a repeated eigenvalue (equibiaxial tension / compression, zero) next to generic states in ONE
+    element: (R17.15) eigenvalues sorted, M1, M2 symmetric orthogonal idempotents of trace one with sum lambda_i M_i == T;
+    (R17.16) projP == d(eps^+)/d(eps) as a 3x3 Kelvin-Mandel matrix -- for a repeated eigenvalue v the derivative is
+    H(v) * Identity INCLUDING its shear entry -- and projP + projM == Identity."""
+    from ..femodel import Model, FeV
+    from ..alg import MQ
+
+    repo = ctx.repo
+    ci = repo.cls(PFM)
+    f1 = ci.methods["_Eigen_values_vectors_projectors"]
+    f2 = repo.lookup_method(ci, ci.mangle("__Spectral_Decomposition"))
+    r1 = ctx.rule("R17.15", "2-D closed-form eigen-decomposition on exact degenerate states (equibiaxial, zero) mixed with generic ones in one element: eigenvalues sorted, M_i symmetric rank-one orthogonal idempotents, sum_i lambda_i M_i == tensor", min_instances=2)
+    r2 = ctx.rule("R17.16", "2-D projP == d(eps^+)/d(eps) in Kelvin-Mandel form (a repeated eigenvalue v: H(v) * Identity, shear entry included), projP + projM == identity", min_instances=2)
+    R2, I2, s2, tensor, kelvin = _plane_setup(repo)
+    pos = lambda x: x if x > 0 else Q(0)
+    H = lambda x: Q(1) if x > 0 else Q(0) if x < 0 else Q(1, 2)
+    zero = lambda x: (x if isinstance(x, MQ) else MQ.of(x)).is_zero()
+
+    def basis(J):
+        T = [[MQ.of(0)] * 2 for _ in range(2)]
+        if J < 2:
+            T[J][J] = MQ.of(1)
+        else:
+            T[0][1] = T[1][0] = MQ.of(1) / s2
+        return T
+
+    def reference(d, R):
+        n = [[R[i][a] for i in range(2)] for a in range(2)]
+        cols = []
+        for J in range(3):
+            X = basis(J)
+            Y = [[MQ.of(0)] * 2 for _ in range(2)]
+            for a in range(2):
+                for b in range(2):
+                    gam = H(d[a]) if d[a] == d[b] else (pos(d[a]) - pos(d[b])) / (d[a] - d[b])
+                    if gam == 0:
+                        continue
+                    c = sum((MQ.of(n[a][i]) * X[i][j] * MQ.of(n[b][j]) for i in range(2) for j in range(2)), MQ.of(0)) * gam
+                    for i in range(2):
+                        for j in range(2):
+                            Y[i][j] = Y[i][j] + c * (n[a][i] * n[b][j])
+            cols.append(kelvin(Y))
+        return [[cols[J][I] for J in range(3)] for I in range(3)]
+
+    batches = [
+        ("equibiaxial tension / generic / equibiaxial compression", [([2, 2], False), ([-1, 3], True), ([-3, -3], False)]),
+        ("zero / generic positive / equibiaxial tension", [([0, 0], False), ([1, 6], True), ([5, 5], False)]),
+    ]
+    for label, pts in batches:
+        nP = len(pts)
+        vecs = [kelvin(tensor([Q(x) for x in d], rot)) for d, rot in pts]
+        data = [x.rational() if x.is_rational() else x for v in vecs for x in v]
+        mat = SimpleNamespace(dim=2, coef=s2)
+        for which, f, r in (("eig", f1, r1), ("proj", f2, r2)):
+            r.instance(fn=f.qualname)
+            M = Model(repo, max_steps=200_000_000)
+            M.user_call_hook = lambda fn, args, kwargs: Sink() if getattr(fn, "name", "") == "Tic" else NotImplemented
+            obj = XObj(ci, {ci.mangle("__material"): mat, "dim": 2})
+            eps = FeV((1, nP, 3), list(data))
+            try:
+                out = M.I.call_function(f, [eps], self_obj=obj)
+            except XRaise as e:
+                r.fail(f.qualname, f"plane:{label}", f.file, f.lineno, f.name, f"{label}: raises {e}")
+                continue
+            bad = None
+            if which == "eig":
+                vals, list_m, list_M = out
+                vals = XArray.from_nested(vals)
+                Ms = [XArray.from_nested(m) for m in list_M]
+                for p, (d, rot) in enumerate(pts):
+                    T = tensor([Q(x) for x in d], rot)
+                    want = sorted(Q(x) for x in d)
+                    got = [exact_num(vals[0, p, k]) for k in range(2)]
+                    if any(not zero(MQ.of(g) - MQ.of(w)) for g, w in zip(got, want)):
+                        bad = f"point {p} (eigenvalues {want}): returned eigenvalues {got}"
+                        break
+                    Mp = [[[MQ.of(exact_num(Mi[0, p, i, j])) for j in range(2)] for i in range(2)] for Mi in Ms]
+                    mm = lambda A, B: [[sum((A[i][k] * B[k][j] for k in range(2)), MQ.of(0)) for j in range(2)] for i in range(2)]
+                    for a in range(2):
+                        AA = mm(Mp[a], Mp[a])
+                        if not zero(Mp[a][0][0] + Mp[a][1][1] - MQ.of(1)):
+                            bad = f"point {p} (eigenvalues {want}): trace(M{a + 1}) != 1"
+                        elif not zero(Mp[a][0][1] - Mp[a][1][0]):
+                            bad = f"point {p}: M{a + 1} is not symmetric"
+                        elif any(not zero(AA[i][j] - Mp[a][i][j]) for i in range(2) for j in range(2)):
+                            bad = f"point {p} (eigenvalues {want}): M{a + 1} is not idempotent"
+                    AB = mm(Mp[0], Mp[1])
+                    if bad is None and any(not zero(AB[i][j]) for i in range(2) for j in range(2)):
+                        bad = f"point {p} (eigenvalues {want}): M1 M2 != 0"
+                    for i in range(2):
+                        for j in range(2):
+                            tot = sum((MQ.of(got[a]) * Mp[a][i][j] for a in range(2)), MQ.of(0))
+                            if bad is None and not zero(tot - MQ.of(T[i][j])):
+                                bad = f"point {p} (eigenvalues {want}): sum_i lambda_i M_i differs from the tensor at ({i},{j})"
+                    if bad:
+                        break
+            else:
+                projP, projM = XArray.from_nested(out[0]), XArray.from_nested(out[1])
+                for p, (d, rot) in enumerate(pts):
+                    ref = reference([Q(x) for x in d], R2 if rot else I2)
+                    for I_ in range(3):
+                        for J in range(3):
+                            g = MQ.of(exact_num(projP[0, p, I_, J]))
+                            if bad is None and not (g - ref[I_][J]).is_zero():
+                                bad = f"point {p} (eigenvalues {sorted(d)}): projP[{I_}][{J}] = {g}, the derivative of the positive part is {ref[I_][J]}"
+                            s = g + MQ.of(exact_num(projM[0, p, I_, J]))
+                            if bad is None and not (s - MQ.of(1 if I_ == J else 0)).is_zero():
+                                bad = f"point {p}: projP + projM is not the identity at ({I_},{J})"
+            if bad:
+                r.fail(f.qualname, f"plane:{label}", f.file, f.lineno, f.name, f"one 2-D element, Gauss points {label}: {bad}: the split stiffness / positive stress built from it is wrong at that state")
+            else:
+                r.ok(f"2-D {label}: exact at every point")
+
+
+def sqrt_domain_rule(ctx):
+    """R17.17: 'the positive and negative parts are finite': a square root of a COMPUTED difference that is mathematically
+    non-negative (a discriminant: tr^2 - 4 det = (v1 - v2)^2, I1^2 - 3 I2) is slightly negative by round-off exactly at the
+    repeated-eigenvalue states the property names, and np.sqrt returns NaN.  In the phase-field model the argument of
+    every np.sqrt whose defining expression (through the local definitions) has a subtraction at its top is clamped
+    (np.maximum(., 0) / np.clip(., 0, .) / np.abs) on the way to the call."""
+    from ..flow import Locals
+
+    repo = ctx.repo
+    r = ctx.rule("R17.17", "phase-field model: a square root of a computed difference (discriminant) is clamped at zero before np.sqrt (round-off at equal eigenvalues cannot produce NaN)", min_instances=2)
+    mod = repo.module("EasyFEA.Models._phasefield")
+
+    def tail(e):
+        return (dotted(e.func) or "").split(".")[-1] if isinstance(e, ast.Call) else ""
+
+    for f in sorted(repo.all_functions(), key=lambda f: f.qualname):
+        if f.module is not mod:
+            continue
+        stmts = [s for s in ast.walk(f.node) if isinstance(s, ast.Assign) and len(s.targets) == 1 and isinstance(s.targets[0], ast.Name)]
+        for n in ast.walk(f.node):
+            if not (isinstance(n, ast.Call) and tail(n) == "sqrt" and n.args):
+                continue
+            a = n.args[0]
+            if isinstance(a, ast.Constant):
+                continue
+            r.instance(fn=f.qualname)
+            # walk back through the assignments to the variable that precede the call (source order, same function)
+            verdict = None
+            cur = a
+            seen = 0
+            while verdict is None and seen < 8:
+                seen += 1
+                if isinstance(cur, ast.Call) and tail(cur) in ("maximum", "clip", "abs", "fabs", "absolute"):
+                    verdict = "clamped"
+                elif isinstance(cur, ast.Call) and tail(cur) in ("asarray", "array", "asfearray") and cur.args:
+                    cur = cur.args[0]
+                elif isinstance(cur, ast.BinOp) and isinstance(cur.op, ast.Sub):
+                    verdict = "difference"
+                elif isinstance(cur, ast.Name):
+                    prev = [s for s in stmts if s.targets[0].id == cur.id and s.lineno < n.lineno]
+                    if not prev:
+                        verdict = "opaque"
+                    else:
+                        cur = sorted(prev, key=lambda s: s.lineno)[-1].value
+                else:
+                    verdict = "opaque"
+            if verdict == "difference":
+                r.fail(f.qualname, f"unclamped-sqrt:{norm_text(a)[:30]}", f.file, n.lineno, f"{(f.cls.name + '.') if f.cls else ''}{f.name}", f"`{norm_text(n)[:50]}`: the argument is the computed difference `{norm_text(cur)[:60]}`, non-negative only in exact arithmetic: at (nearly) equal eigenvalues round-off makes it negative and the square root is NaN (equibiaxial / hydrostatic states)")
+            else:
+                r.ok(f"{f.qualname}: {norm_text(n)[:40]} ({verdict})")
